@@ -15,7 +15,7 @@ func init() {
 	register("C15", &propSpec{
 		run: runC15,
 		explanation: "Comments travel as attachments of tokens, so the decidable mechanism is which tokens carry them and who replays them. Decided on every path of every printer and of the replay/collection code: " +
-			"R15.1 every token field the parser fills is replayed (WriteLeadingComments of that field) before that token's mapping/text on every path, and a node's first written byte is preceded by the replay of its leftmost token unless the node starts by delegating to its leftmost child (precedence-guard parentheses exempt: they never occur for parsed trees); " +
+			"R15.1 every token field the parser fills is replayed (WriteLeadingComments of that field) before that token's mapping/text on every path — and directly in front of it: no child is printed between the replay and the token's own text, except for a token the parser never accepts after a line break (the restricted production), whose trivia is always empty —, and a node's first written byte is preceded by the replay of its leftmost token unless the node starts by delegating to its leftmost child (precedence-guard parentheses exempt: they never occur for parsed trees); " +
 			"R15.2 every statement-list node keeps the token on which its list parser stops (it carries the trivia after the last statement) and its printer replays that token after the last statement and before the closing text; " +
 			"R15.3 no printer path replays the same token field twice, and the replay method writes each element once; " +
 			"R15.4 every buffer write of the replay method is reachable only with PrettyPrint true, and LeadingComments is read in ast/compiler/debug only as the argument of the replay method; " +
@@ -261,6 +261,41 @@ func ruleFreshEmptinessTests(c *Ctx) {
 	}
 }
 
+// tokenNeverAfterLineBreak: every token type that enters the node through the infix table is cut by the climbing loop
+// when it follows a line break, unconditionally (no mode flag): the restricted production of postfix ++/--.
+func (c *Ctx) tokenNeverAfterLineBreak(node string) bool {
+	t := c.tables()
+	a := c.parserAnchors()
+	if a == nil || len(a.problems) > 0 {
+		return false
+	}
+	var toks []int64
+	for _, r := range c.nodeRoles(t) {
+		if r.node == node && r.via == "infix" {
+			toks = append(toks, r.tokens...)
+		}
+	}
+	if len(toks) == 0 {
+		return false
+	}
+	_, cuts, complete := loopCuts(c, t, a)
+	if !complete {
+		return false
+	}
+	for _, k := range toks {
+		cut := false
+		for _, lc := range cuts {
+			if lc.newline && lc.types[k] && len(lc.flags) == 0 && len(lc.other) == 0 {
+				cut = true
+			}
+		}
+		if !cut {
+			return false
+		}
+	}
+	return true
+}
+
 func ruleReplayOrder(c *Ctx, node string, pe *printerEvents, facts []*parseFacts) {
 	if len(pe.root) == 0 {
 		return
@@ -288,13 +323,15 @@ func ruleReplayOrder(c *Ctx, node string, pe *printerEvents, facts []*parseFacts
 		firstBad bool
 		firstWhy string
 		paths    int
+		early    map[string]string // token field whose comments are replayed with something else printed before its own text
 	}
-	v := verdict{missing: map[string]bool{}, twice: map[string]bool{}}
+	v := verdict{missing: map[string]bool{}, twice: map[string]bool{}, early: map[string]string{}}
 	complete := g.paths(4000, func(path []*pev) {
 		v.paths++
 		seen := map[string]int{}
 		wroteText := false
 		pendingMap := ""
+		awaiting := "" // the token whose comments were replayed last and whose text has not been written yet
 		for i, e := range path {
 			switch e.kind {
 			case evComments:
@@ -302,9 +339,13 @@ func ruleReplayOrder(c *Ctx, node string, pe *printerEvents, facts []*parseFacts
 				if seen[e.field] > 1 {
 					v.twice[e.field] = true
 				}
+				awaiting = e.field
 			case evMap:
 				// the token is used where its text is written: the next text after the mapping
 				pendingMap = e.field
+				if awaiting == e.field {
+					awaiting = ""
+				}
 			case evLit, evText:
 				if pendingMap != "" {
 					if seen[pendingMap] == 0 {
@@ -341,6 +382,11 @@ func ruleReplayOrder(c *Ctx, node string, pe *printerEvents, facts []*parseFacts
 				if !wroteText {
 					wroteText = true // delegation: the child replays its own leftmost token
 				}
+				if awaiting != "" {
+					if _, dup := v.early[awaiting]; !dup {
+						v.early[awaiting] = "child " + e.field
+					}
+				}
 			}
 			_ = i
 		}
@@ -373,6 +419,22 @@ func ruleReplayOrder(c *Ctx, node string, pe *printerEvents, facts []*parseFacts
 		default:
 			c.ok(key, pe.decl.Pos(), "replayed on every path before use")
 		}
+	}
+	// a token's comments are replayed directly in front of that token: no child is printed between the replay and the
+	// token's own text (a line break or comment that stood in front of `(` must not move in front of the callee: after
+	// `return` that line break is a statement end). Exempt: a token the parser never accepts after a line break (the
+	// restricted production cuts postfix ++/--), whose trivia is therefore always empty.
+	for _, f := range tfs {
+		why, isEarly := v.early[f]
+		if !isEarly {
+			continue
+		}
+		key := fmt.Sprintf("%s.%s replayed directly in front of its token", node, f)
+		if c.tokenNeverAfterLineBreak(node) {
+			c.ok(key, pe.decl.Pos(), "the replay precedes %s, but the parser never accepts this node's token after a line break (restricted production): its trivia is always empty", why)
+			continue
+		}
+		c.bad(key, pe.decl.Pos(), "the comments of %s are replayed and then %s is printed before the token itself: a line break or comment that stood in front of the token moves in front of that child (after `return` the moved line break ends the statement; a comment changes its place)", f, why)
 	}
 	if len(tfs) > 0 {
 		c.check(!v.firstBad, node+": first byte preceded by a replay or a delegation", pe.decl.Pos(), fmt.Sprintf("%d paths", v.paths), v.firstWhy+": a comment in front of a statement that starts with this node is emitted after part of the statement (or lost)")
@@ -572,14 +634,49 @@ func ruleCommentCannotSwallow(c *Ctx) {
 	// the replay tells a comment from the blank-line marker by emptiness: "//" is written exactly for the non-empty
 	// entries (an entry of one character is a comment too)
 	{
-		var slashes []*ssa.Call
-		allInstrs(replay, func(_ *ssa.BasicBlock, _ int, in ssa.Instruction) {
-			if call, ok := in.(*ssa.Call); ok && len(call.Call.Args) == 2 {
-				if k, ok := call.Call.Args[1].(*ssa.Const); ok && k.Value != nil && k.Value.Kind() == constant.String && constant.StringVal(k.Value) == "//" {
-					slashes = append(slashes, call)
-				}
+		// the write of "//" (alone, or as the constant prefix of a concatenation), in the replay method or in a private
+		// helper of the writer it calls
+		type slashSite struct {
+			call *ssa.Call
+			fn   *ssa.Function
+		}
+		var slashSites []slashSite
+		var scanFn func(g *ssa.Function, depth int)
+		scannedFns := map[*ssa.Function]bool{}
+		scanFn = func(g *ssa.Function, depth int) {
+			if g == nil || g.Blocks == nil || scannedFns[g] || depth > 2 {
+				return
 			}
-		})
+			scannedFns[g] = true
+			allInstrs(g, func(_ *ssa.BasicBlock, _ int, in ssa.Instruction) {
+				call, ok := in.(*ssa.Call)
+				if !ok {
+					return
+				}
+				if len(call.Call.Args) == 2 {
+					isSl := func(v ssa.Value) bool {
+						k, ok := v.(*ssa.Const)
+						return ok && k.Value != nil && k.Value.Kind() == constant.String && constant.StringVal(k.Value) == "//"
+					}
+					a1 := call.Call.Args[1]
+					if isSl(a1) {
+						slashSites = append(slashSites, slashSite{call, g})
+					} else if bo, ok := a1.(*ssa.BinOp); ok && bo.Op == token.ADD && isSl(bo.X) {
+						slashSites = append(slashSites, slashSite{call, g})
+					}
+				}
+				if cal := call.Call.StaticCallee(); cal != nil && cal.Pkg == replay.Pkg && cal.Object() != nil && !cal.Object().Exported() && cal.Signature.Recv() != nil {
+					scanFn(cal, depth+1)
+				}
+			})
+		}
+		scanFn(replay, 0)
+		var slashes []*ssa.Call
+		slashFn := map[*ssa.Call]*ssa.Function{}
+		for _, ss := range slashSites {
+			slashes = append(slashes, ss.call)
+			slashFn[ss.call] = ss.fn
+		}
 		if len(slashes) == 0 {
 			c.unres("replay method: comment opener", replay.Pos(), "no write of the constant \"//\" found in the replay method")
 		}
@@ -587,7 +684,7 @@ func ruleCommentCannotSwallow(c *Ctx) {
 			key := fmt.Sprintf("replay method: \"//\" #%d is written exactly for non-empty entries", i+1)
 			okc := false
 			why := "no controlling test of the entry's length found"
-			for _, ob := range replay.Blocks {
+			for _, ob := range slashFn[sl].Blocks {
 				iff := blockIf(ob)
 				if iff == nil {
 					continue
@@ -834,6 +931,36 @@ func ruleCommentCollection(c *Ctx) {
 					desc += ")"
 				}
 				nonEmpty := false
+				// the text comes from a private helper of the skipper: every value the helper returns in that position
+				// must itself be replaced when empty
+				{
+					var hc2 *ssa.Call
+					idx := 0
+					switch x := el[0].(type) {
+					case *ssa.Call:
+						hc2 = x
+					case *ssa.Extract:
+						hc2, _ = x.Tuple.(*ssa.Call)
+						idx = x.Index
+					}
+					if hc2 != nil {
+						if h := hc2.Call.StaticCallee(); h != nil && h != sk && lf.isSkipperFn(h) {
+							all, any := true, false
+							allInstrs(h, func(_ *ssa.BasicBlock, _ int, in2 ssa.Instruction) {
+								if ret, ok := in2.(*ssa.Return); ok && idx < len(ret.Results) {
+									any = true
+									if _, ok := emptyReplaced(unwrapDeferResult(ret.Results[idx])); !ok {
+										all = false
+									}
+								}
+							})
+							if all && any {
+								nonEmpty = true
+								desc = h.Name() + "(…), a blank when empty"
+							}
+						}
+					}
+				}
 				if t, ok := emptyReplaced(el[0]); ok {
 					nonEmpty = true
 					if call, ok := t.(*ssa.Call); ok && call.Call.StaticCallee() != nil {
